@@ -122,8 +122,15 @@ Definition k_node_id : text := [110; 111; 100; 101; 95; 105; 100].
 Lemma source_keys_ok :
   TO_DICT_KEYS = [k_data; k_data_id; k_children] /\
   FROM_DICT_KEYS = [k_data; k_data_id; k_node_id; k_children] /\
-  TO_DICT_ID_TEST_IS_NE_HASH = true.
+  TO_DICT_ID_TEST_IS_NE_HASH = true /\
+  TO_DICT_SKELETON = [0; 1; 2; 3; 4].
 Proof. repeat split; vm_compute; reflexivity. Qed.
+
+(* a mapper that returns a new dict without "data_id" loses explicit ids *)
+Lemma ex_drop_loses_ids :
+  tree_from_dict (dd_raw ex_raw) 0 (to_dict_list (sm_of (SMnew [(1, JStr [97])] false)) [T 1 (ex_a (DInt 0)) []]) =
+  inl [T 1 (I (-1) 1 11 true [97] (DInt 11) None []) []].
+Proof. reflexivity. Qed.
 
 (* canonical dict lists: the four shapes of a canonical item *)
 Lemma canon_leaf dd s i : dd (Some (JStr s)) = inl i -> i_name i = s -> canon dd (JDict [(k_data, JStr s)]).
